@@ -1,19 +1,7 @@
 #!/bin/bash
-# seed_regress.sh [<Cxx> ...] : every kept seeded change against the quick check of its property (scratch worktree +
-# AIU_REPO, /repo untouched); prints one line per seed, "MISSED" when the check stays green.  For `vp run`.
+# seed_regress.sh [-P n] : every kept seeded change against the quick check of its property, n at a time (default 4);
+# scratch worktrees + AIU_REPO, /repo untouched; one line per seed, "MISSED" when the check stays green.
 cd "$(dirname "$0")/../.."
+P=4; [ "$1" = "-P" ] && P=$2
 (cd lean && lake build 2>&1 | grep -E "error|Build completed" | head -3)
-sel="$*"
-for d in seeded/*/; do
-  id=$(basename $d); P=${id%%-*}
-  [ -n "$sel" ] && ! echo " $sel " | grep -q " $P " && continue
-  W=/tmp/sreg_$$; git -C /repo worktree add -q --detach $W || exit 2
-  if ( cd $W && git apply "$OLDPWD/$d/patch.diff" 2>/dev/null ); then
-    out=$(AIU_REPO=$W timeout 2400 /venv/bin/python harness/check.py $P --tier quick 2>&1); rc=$?
-    v=$(echo "$out" | grep -c "^VIOLATION property=$P")
-    nf=$(echo "$out" | grep -c "no-failing-input-found")
-    w=$(echo "$out" | grep -o "wall=[0-9.]*s" | tail -1)
-    if [ $v -ge 1 ]; then echo "caught $id rc=$rc $w $([ $nf -ge 1 ] && echo no-failing-input-found)"; else echo "MISSED $id rc=$rc $w"; fi
-  else echo "NOAPPLY $id"; fi
-  git -C /repo worktree remove --force $W
-done
+ls -d seeded/*/ | xargs -P $P -n 1 harness/tools/seed_one.sh
